@@ -58,6 +58,7 @@ def gen_obligations(E, C, cfg, prop):
         st.old = {'self': snapshot(st.self) if st.self is not None else None,
                   'args': [snapshot(a) for a in st.args], 'kw': {k: snapshot(v) for k, v in st.kw.items()}}
         frame = [(nm, o, snapshot(o)) for nm, o in C.frame(E, st)]
+        frame_r = [(nm, o, snapshot(o)) for nm, o in C.frame_on_raise(E, st)]
         E.call_depth = 0
         try:
             res = E.call_function(fn, ([st.self] if cls else []) + list(st.args), dict(st.kw), cls=cls, qual=('#top', C.func))
@@ -77,7 +78,7 @@ def gen_obligations(E, C, cfg, prop):
         else:
             conds = [c for exc, c in C.raises(E, st) if exc == out[1]]
             obs.append(('raises', f'{out[1]} raised (line {out[2]}) => its stated condition holds', disj(conds), out[2]))
-            for nm, o, sn in frame:
+            for nm, o, sn in frame_r:
                 obs.append(('frame', f'{nm} unchanged on the {out[1]} path', same_value(E, o, sn), out[2]))
         if unspec is not None:
             obs = [(k, l, implies(negate(unspec), g), ln) for k, l, g, ln in obs]
@@ -239,6 +240,8 @@ def replay(mod, C, cfg, valuation, want=None):
         fval[k] = fractions.Fraction(float(v)) if isinstance(v, fractions.Fraction) else v
     E.valuation = fval
     E.pc = []
+    mags = [abs(float(v)) for v in fval.values() if isinstance(v, (fractions.Fraction, float))]
+    TE.ATOL[0] = 1e-9 * max(mags + [1e-290])
     info = {'inputs': {k: (float(v) if isinstance(v, fractions.Fraction) else v) for k, v in fval.items()}}
     try:
         st = C.pre_state(E, cfg)
@@ -249,6 +252,7 @@ def replay(mod, C, cfg, valuation, want=None):
         st.old = {'self': snapshot(st.self) if st.self is not None else None,
                   'args': [snapshot(a) for a in st.args], 'kw': {k: snapshot(v) for k, v in st.kw.items()}}
         frame = [(nm, o, snapshot(o)) for nm, o in C.frame(E, st)]
+        frame_r = [(nm, o, snapshot(o)) for nm, o in C.frame_on_raise(E, st)]
         out, RZ = real_call(C, E, st, cfg)
         # reload the post-state of every object of the symbolic state from its real counterpart
         for oid, robj in list(RZ.memo.items()):
@@ -268,7 +272,7 @@ def replay(mod, C, cfg, valuation, want=None):
         else:
             conds = [c for exc, c in C.raises(E, st) if exc == out[1]]
             clauses.append(('raises', f'{out[1]} raised => its stated condition holds', disj(conds)))
-            for nm, o, sn in frame:
+            for nm, o, sn in frame_r:
                 clauses.append(('frame', f'{nm} unchanged on the {out[1]} path', same_value(E, o, sn)))
         if C.unspecified is not None:
             u = C.unspecified(E, st)
